@@ -215,6 +215,17 @@ func c11Join(r *vfw.Run, lr *ledgerRun, P *simnode.Node, manifest *snapshot.Mani
 		offered = &snapshot.Manifest{Height: manifest.Height, Root: older.Root, CidV2: older.CidV2}
 		byz = "manifest-with-root-and-archive-of-an-older-snapshot"
 	}
+	// the last block up to the manifest height that changes identities (withholding the diff of an earlier one is noticed
+	// at the latest when the next diff no longer replays; the last one is only noticed if the block itself is checked)
+	lastIU := uint64(0)
+	P.Do(func() {
+		for h := manifest.Height; h > 1; h-- {
+			if d := P.Chain.GetIdentityDiff(h); d != nil && len(d.Values) > 0 {
+				lastIU = h
+				break
+			}
+		}
+	})
 	fs := protocol.VerifNewFastSync(J.Chain, J.Ipfs, J.App, offered, J.SM, J.Bus, J.Addr, J.KeyStore, J.SubMgr, J.Upg)
 	before := fmt.Sprintf("head=%x root=%x idroot=%x", J.Chain.Head.Hash().Bytes()[:8], J.App.State.Root().Bytes()[:8], J.App.IdentityState.Root().Bytes()[:8])
 	var from uint64
@@ -249,7 +260,7 @@ func c11Join(r *vfw.Run, lr *ledgerRun, P *simnode.Node, manifest *snapshot.Mani
 					wire[i].IdentityDiff = &d
 					byz = "served-diff-altered"
 				}
-				if diffDrop && wire[i].Header.Flags().HasFlag(types.IdentityUpdate) && wire[i].IdentityDiff != nil && len(wire[i].IdentityDiff.Values) > 0 && byz == "" {
+				if diffDrop && wire[i].Header.Height() == lastIU && wire[i].IdentityDiff != nil && len(wire[i].IdentityDiff.Values) > 0 && byz == "" {
 					wire[i].IdentityDiff = nil
 					byz = "diff-of-identity-update-block-withheld"
 				}
